@@ -13,7 +13,11 @@
                              a merge replaces a run of files by files holding the same ids);
     * `view_held_stable`   — the file list a view captured never changes while the view is open,
                              and (with C13) none of these files is closed meanwhile.
-  Not expressible in this model (no payload bytes): "in its newest version" is carried by C07
+  History level with ghost versions: Pk/Props/C10Reach.lean (`fresh_view_newest_run`: every id is served in its
+  CURRENT version in every reached state; `held_view_stable_run`: a held view keeps list, open files, serving
+  file and version for every id; `view_complete_at_open_run`), under the payload contracts `ImportStoresChanged`
+  and `MergeKeepsVersions` (= C07's `merge_view_eq'` at the level of versions).
+  Not expressible in this model (no payload bytes): the bytes themselves — carried by C07
   (merge keeps the version of the newest file) and by the harness oracle; stability of the *tag*
   answers of a view relies on copy-on-write of tag structs, which an immutable model cannot violate
   (DESIGN §5 C10 Limits) — it is checked observably by the scenario harness.
